@@ -17,7 +17,8 @@ RULE = ("same (graph, labeling) families as C01 (all weak edge orderings for n<=
         "prototype set must be a member of {inter-class arc endpoints of T : T any minimum "
         "spanning tree of the labeled graph}; non-trivial = the graph has more than one "
         "minimum spanning tree (tie handling matters) or the boundary set is a proper subset "
-        "of the samples")
+        "of the samples; includes C01's further families (index arrays, magnitudes, large class ids, seven "
+        "samples, memory layouts, fits after an interrupted fit)")
 ASSUMPTIONS = [
     "n <= 5 (quick) / 6 (thorough) labeled samples",
     "tree weights are compared with relative tolerance 1e-12 (sums of <= 5 weights)",
